@@ -636,6 +636,10 @@ func (r *proxyStreamReceiver) Run(
 	sourceStreamClient, err = r.adminClient.StreamWorkflowReplicationMessages(outgoingContext)
 	if err != nil {
 		r.logger.Error("adminClient.StreamWorkflowReplicationMessages error", tag.Error(err))
+		// Without its reverse stream this connection cannot work. End it as a whole, like every other exit of this
+		// function does: otherwise the sender half stays open and registered (shard owned, delivery channel, but no
+		// acknowledgement channel and no watermark replay) and the cluster, seeing a healthy stream, never reconnects.
+		shutdownChan.Shutdown()
 		return
 	}
 
